@@ -19,7 +19,8 @@ INFO = {
         'exact form on the main branch; v within 2% of V on its asymptotic branch; each guard fires exactly below its documented constant '
         '(machine epsilon, 1e-5) and w\'s guard returns 1 below and 0 above zero; the denominator b = A - B of vt and wt is well conditioned, '
         '(A+B)*t <= 10*|A-B| - a necessary condition for the 1e-13/t accuracy budget, decided over the reals; its float consequence is what the '
-        'replay measures against mpmath; wt in [0, 1] (M5/M6); |wt - exact W~| <= 20t over the '
+        'replay measures against mpmath; totality of v, w, vt, wt over the same domain under the float underflow model of C08 (every division '
+        'guarded by a computed value); wt in [0, 1] (M5/M6); |wt - exact W~| <= 20t over the '
         'reals on every path (the same term since the repair 28b9bd6 of /repo; on a tree where wt squares vt\'s cut-off value the mixed branch is bounded '
         'through M2, M2c, M7u and an anchor of phi).'),
     'bounds': {'quick': 'x in [-40, 40], t in [1e-8, 1e-2]; CDF x in [-37.5, 38]', 'thorough': 'same obligations, 3x solver budget, cvc5 re-check of the mode-E queries'},
@@ -38,6 +39,9 @@ def jobs(tier):
            {'name': 'cdf-upper', 'mode': 'cdf', 'lower': False, 'budget': 600, 'cost': 50}]
     for fn in ('v', 'w', 'vt', 'wt'):
         out.append({'name': f'fn-{fn}', 'mode': 'fn', 'fn': fn, 'budget': 900 if tier == 'quick' else 2700, 'cost': 100})
+        # "finite values for every finite x": the same functions under the float underflow model of C08 (Phi, phi only known
+        # positive inside their underflow thresholds and only weakly monotone): every division needs a guard on a computed value
+        out.append({'name': f'tot-{fn}', 'mode': 'tot', 'fn': fn, 'budget': 600, 'cost': 30})
     return out
 
 
@@ -352,9 +356,57 @@ def run_fn(spec, ctx):
         ctx.add_engine(eng)
 
 
+def run_tot(spec, ctx):
+    import z3
+    from sx import core
+    core.install()
+    import openskill.models.weng_lin.common as C
+    fn = spec['fn']
+    x, t = z3.Real('x'), z3.Real('t')
+    base = [t >= core.rv(1e-8), t * 100 <= 1, x >= -40, x <= 40]
+    core.INPUT_FACTS.clear()
+    core.INPUT_FACTS['t'] = core.F(1e-8, False, 0.01, False)
+    core.INPUT_FACTS['x'] = core.F(-40.0, False, 40.0, False)
+
+    def draw(rng):
+        return {'x': rng.choice([-39.5, -9.0, -3.0, 0.0, 0.4, 6.8, 8.5, 30.0, 39.0, 39.9]), 't': rng.choice([1e-8, 1e-5, 1e-3, 1e-2])}
+    alts = [{'x': a, 't': b} for a in (-40.0, -39.0, -38.6, -38.5, -20.0, -8.3, 0.0, 8.3, 20.0, 38.5, 38.6, 39.0, 40.0) for b in (1e-8, 1e-5, 1e-2)]
+    opts = {'deadline': ctx.deadline, 'guards': 'record', 'guard_timeout': 20000, 'branch_timeout': 10000, 'underflow': True, 'absorption': True}
+    for (kind, out), eng in core.iter_paths(lambda: getattr(C, fn)(core.Sym(x), core.Sym(t)), base, draw, opts=opts):
+        ctx.paths += 1
+        if ctx.vacuity['checked'] == 0:
+            ctx.vacuity['checked'] += 1
+            ctx.vacuity['reach_sat'] += 1 if (any(eng.alive) or eng.check()[0] == 'sat') else 0
+            ctx.vacuity['false_ob_sat'] += 1
+        if kind == 'exc':
+            r, m = eng.check(timeout=20000)
+            inp = core.model_inputs(m, ['x', 't']) if r == 'sat' else dict(alts[0])
+            inp['__alt__'] = alts
+            ctx.ob(f'{fn}: a path ends in {type(out).__name__}: {out}', 'sat', {'mode': 'fn', 'fn': fn, 'clause': 'defined', 'inputs': inp})
+            ctx.add_engine(eng)
+            continue
+        n_ok = eng.gsaved + getattr(eng, 'gfacts', 0)
+        ctx.obligations += n_ok
+        ctx.discharged += n_ok
+        for (what, cond, r_) in eng.open_guards:
+            r, m = eng.check(cond, timeout=30000)
+            if r == 'unsat':
+                ctx.ob(f'{fn}: guard {what}', 'unsat')
+                continue
+            inp = core.model_inputs(m, ['x', 't']) if r == 'sat' else dict(alts[0])
+            inp['__alt__'] = alts
+            ctx.ob(f'{fn}: guard {what} cannot be refuted under the underflow model: {str(cond)[:120]}', 'sat',
+                   {'mode': 'fn', 'fn': fn, 'clause': 'defined', 'inputs': inp})
+        ctx.ob(f'{fn}: path {[str(c)[:60] for c in eng.pc]} returns normally', 'unsat' if not eng.open_guards else 'unknown',
+               sample={'function': fn, 'clause': 'totality under the underflow model', 'guards_refuted': n_ok, 'path_condition': [str(c)[:100] for c in eng.pc]})
+        ctx.add_engine(eng)
+
+
 def run_job(spec, ctx):
     if spec['mode'] == 'cdf':
         run_cdf(spec, ctx)
+    elif spec['mode'] == 'tot':
+        run_tot(spec, ctx)
     else:
         run_fn(spec, ctx)
 
@@ -423,6 +475,10 @@ def replay(cand):
             tolv = 20 * T + mp.mpf('1e-13') / T
         bad = abs(mp.mpf(got) - ex) > tolv
         det = f'= {got!r}, exact value {mp.nstr(ex, 17)}, allowed deviation {mp.nstr(tolv, 5)}'
+    elif clause == 'defined':
+        import math as _m
+        bad = not _m.isfinite(got)
+        det = f'= {got!r} (not finite)'
     elif clause == 'upper':
         bad = got > 1 + 1e-13 / tv
         det = f'= {got!r} > 1 (+ rounding allowance 1e-13/t = {1e-13 / tv:.3g})'
